@@ -1,13 +1,381 @@
-//! C01 — not implemented yet.
+//! C01 — routing. Real code: `log4rs::Logger::new(config)` + `log::Log::log`, with one capturing
+//! `Append` per declared appender that records its own name per call into a shared vector.
+//! case:   appenders(,)  rootLevel  rootRefs(,)  loggers(, of name;level;additive;refs(|))  probes(, of target;level)
+//! obs:    per probe (,) the sequence (;) of appender names called (`~` none)
+use crate::proto::*;
 use crate::rng::Rng;
+use log::{Level, LevelFilter, Log, Record};
+use log4rs::append::Append;
+use log4rs::config::{Appender, Config, Logger, Root};
+use std::sync::{Arc, Mutex};
 
-pub fn gen(_rng: &mut Rng, _n: usize, _thorough: bool, _emit: &mut dyn FnMut(String)) {}
-
-pub fn exec(_fields: &[&str]) -> String {
-    "unimplemented".to_owned()
+// ------------------------------------------------------------------------------------------------
+// logical configuration shared with C02
+// ------------------------------------------------------------------------------------------------
+#[derive(Clone, Debug)]
+pub struct LCfg {
+    pub name: String,
+    pub level: u8,
+    pub additive: bool,
+    pub refs: Vec<String>,
 }
 
-/// child-process entry point (`verif-harness child c01 …`), for checks that need process-global state
+#[derive(Clone, Debug)]
+pub struct Cfg {
+    pub appenders: Vec<String>,
+    pub root_level: u8,
+    pub root_refs: Vec<String>,
+    pub loggers: Vec<LCfg>,
+}
+
+pub fn level_filter(n: u8) -> LevelFilter {
+    match n {
+        0 => LevelFilter::Off,
+        1 => LevelFilter::Error,
+        2 => LevelFilter::Warn,
+        3 => LevelFilter::Info,
+        4 => LevelFilter::Debug,
+        _ => LevelFilter::Trace,
+    }
+}
+
+pub fn level_of(n: u8) -> Level {
+    match n {
+        1 => Level::Error,
+        2 => Level::Warn,
+        3 => Level::Info,
+        4 => Level::Debug,
+        _ => Level::Trace,
+    }
+}
+
+pub fn filter_num(l: LevelFilter) -> u8 {
+    l as usize as u8
+}
+
+impl Cfg {
+    /// the four case fields of one configuration
+    pub fn encode(&self) -> String {
+        let apps: Vec<String> = self.appenders.iter().map(|a| enc_str(a)).collect();
+        let rr: Vec<String> = self.root_refs.iter().map(|a| enc_str(a)).collect();
+        let ls: Vec<String> = self
+            .loggers
+            .iter()
+            .map(|l| {
+                let refs: Vec<String> = l.refs.iter().map(|a| enc_str(a)).collect();
+                format!("{};{};{};{}", enc_str(&l.name), l.level, enc_bool(l.additive), enc_list("|", &refs))
+            })
+            .collect();
+        format!("{}\t{}\t{}\t{}", enc_list(",", &apps), self.root_level, enc_list(",", &rr), enc_list(",", &ls))
+    }
+
+    pub fn decode(f: &[&str]) -> Option<Cfg> {
+        if f.len() != 4 {
+            return None;
+        }
+        let names = |sep: char, s: &str| -> Option<Vec<String>> { dec_list(sep, s).iter().map(|x| dec_str(x)).collect() };
+        let mut loggers = vec![];
+        for l in dec_list(',', f[3]) {
+            let p: Vec<&str> = l.split(';').collect();
+            if p.len() != 4 {
+                return None;
+            }
+            loggers.push(LCfg {
+                name: dec_str(p[0])?,
+                level: p[1].parse().ok()?,
+                additive: match p[2] {
+                    "1" => true,
+                    "0" => false,
+                    _ => return None,
+                },
+                refs: names('|', p[3])?,
+            });
+        }
+        Some(Cfg { appenders: names(',', f[0])?, root_level: f[1].parse().ok()?, root_refs: names(',', f[2])?, loggers })
+    }
+}
+
+#[derive(Debug)]
+pub struct Capture {
+    pub name: String,
+    pub sink: Arc<Mutex<Vec<String>>>,
+}
+
+impl Append for Capture {
+    fn append(&self, _record: &Record) -> anyhow::Result<()> {
+        self.sink.lock().unwrap().push(self.name.clone());
+        Ok(())
+    }
+    fn flush(&self) {}
+}
+
+/// `Config::builder()…build(root)` with capturing appenders; Err = the builder rejected it
+pub fn build_config(c: &Cfg, sink: &Arc<Mutex<Vec<String>>>) -> Result<Config, String> {
+    let mut b = Config::builder();
+    for a in &c.appenders {
+        b = b.appender(Appender::builder().build(a.clone(), Box::new(Capture { name: a.clone(), sink: sink.clone() })));
+    }
+    for l in &c.loggers {
+        b = b.logger(
+            Logger::builder()
+                .appenders(l.refs.iter().cloned())
+                .additive(l.additive)
+                .build(l.name.clone(), level_filter(l.level)),
+        );
+    }
+    b.build(Root::builder().appenders(c.root_refs.iter().cloned()).build(level_filter(c.root_level)))
+        .map_err(|e| format!("{:?}", e))
+}
+
+pub fn render_names(ns: &[String]) -> String {
+    let v: Vec<String> = ns.iter().map(|n| enc_str(n)).collect();
+    enc_list(";", &v)
+}
+
+// ------------------------------------------------------------------------------------------------
+// generator
+// ------------------------------------------------------------------------------------------------
+const COMPS: &[&str] = &["a", "b", "ab", "bb", "a", "b", "é", "日本", "a_b", "B"];
+const APPS: &[&str] = &["x", "y", "z", "ω"];
+pub const SPECIAL_TARGETS: &[&str] =
+    &["", ":", "a:::b", "a::", "::", "::a", "a::::b", "a:b", "a::b:", ":a::b", "a::b::", "::::", "é", "a::é::日本"];
+
+fn rand_name(rng: &mut Rng, existing: &[String], max_depth: usize) -> String {
+    let depth_of = |s: &str| s.split("::").count();
+    if !existing.is_empty() && rng.chance(1, 2) {
+        let base = rng.pick(existing).clone();
+        if rng.chance(2, 3) && depth_of(&base) < max_depth {
+            // extend by one or two components (two ⇒ implied intermediate)
+            let mut s = base;
+            for _ in 0..(if rng.chance(1, 3) { 2 } else { 1 }) {
+                if depth_of(&s) < max_depth {
+                    s = format!("{}::{}", s, rng.pick(COMPS));
+                }
+            }
+            return s;
+        }
+        // a component prefix of an existing name, or a textual variation of it
+        let parts: Vec<&str> = base.split("::").collect();
+        if parts.len() > 1 && rng.chance(1, 2) {
+            let k = rng.range(1, parts.len() as u64 - 1) as usize;
+            let p = parts[..k].join("::");
+            if !p.is_empty() {
+                return p;
+            }
+        }
+        return format!("{}{}", base, rng.pick(&["b", "a", "bb"]));
+    }
+    let depth = rng.range(1, max_depth as u64) as usize;
+    let mut parts: Vec<String> = (0..depth).map(|_| rng.pick(COMPS).to_string()).collect();
+    if depth >= 2 && rng.chance(1, 12) {
+        parts[0] = String::new(); // "::a" passes check_logger_name
+    }
+    parts.join("::")
+}
+
+pub fn rand_cfg(rng: &mut Rng, max_loggers: u64, max_depth: usize) -> Cfg {
+    let napps = rng.range(1, APPS.len() as u64) as usize;
+    let mut appenders: Vec<String> = APPS[..napps].iter().map(|s| s.to_string()).collect();
+    rng.shuffle(&mut appenders);
+    let refs = |rng: &mut Rng, max: u64| -> Vec<String> {
+        let k = rng.range(0, max);
+        (0..k).map(|_| rng.pick(&appenders).clone()).collect()
+    };
+    let root_level = rng.range(0, 5) as u8;
+    let root_refs = refs(rng, 2);
+    let nlog = rng.range(0, max_loggers);
+    let mut names: Vec<String> = vec![];
+    let mut guard = 0;
+    while (names.len() as u64) < nlog && guard < 100 {
+        guard += 1;
+        let n = rand_name(rng, &names, max_depth);
+        if !n.is_empty() && !names.contains(&n) {
+            names.push(n);
+        }
+    }
+    rng.shuffle(&mut names);
+    let loggers = names
+        .into_iter()
+        .map(|name| LCfg { name, level: rng.range(0, 5) as u8, additive: !rng.chance(1, 4), refs: refs(rng, 3) })
+        .collect();
+    Cfg { appenders, root_level, root_refs, loggers }
+}
+
+pub fn targets_for(rng: &mut Rng, c: &Cfg, max: usize) -> Vec<String> {
+    let mut t: Vec<String> = vec![];
+    for l in &c.loggers {
+        let n = &l.name;
+        t.push(n.clone());
+        let parts: Vec<&str> = n.split("::").collect();
+        for k in 1..parts.len() {
+            t.push(parts[..k].join("::"));
+        }
+        t.push(format!("{}::{}", n, rng.pick(COMPS)));
+        t.push(format!("{}::{}::{}", n, rng.pick(COMPS), rng.pick(COMPS)));
+        t.push(format!("{}{}", n, rng.pick(&["b", "a", ":", "::", ":::b"])));
+        let mut cs: Vec<char> = n.chars().collect();
+        cs.pop();
+        t.push(cs.into_iter().collect());
+    }
+    for s in SPECIAL_TARGETS {
+        t.push(s.to_string());
+    }
+    for _ in 0..3 {
+        let d = rng.range(1, 5);
+        let parts: Vec<&str> = (0..d).map(|_| *rng.pick(COMPS)).collect();
+        t.push(parts.join("::"));
+    }
+    t.sort();
+    t.dedup();
+    rng.shuffle(&mut t);
+    // configured names and the special targets first in line when truncating
+    let mut keep: Vec<String> = c.loggers.iter().map(|l| l.name.clone()).collect();
+    for x in t {
+        if keep.len() >= max {
+            break;
+        }
+        if !keep.contains(&x) {
+            keep.push(x);
+        }
+    }
+    keep
+}
+
+fn emit_case(c: &Cfg, probes: &[(String, u8)], emit: &mut dyn FnMut(String)) {
+    let ps: Vec<String> = probes.iter().map(|(t, l)| format!("{};{}", enc_str(t), l)).collect();
+    emit(format!("{}\t{}", c.encode(), enc_list(",", &ps)));
+}
+
+pub fn shuffled(rng: &mut Rng, c: &Cfg) -> Cfg {
+    let mut d = c.clone();
+    rng.shuffle(&mut d.loggers);
+    rng.shuffle(&mut d.appenders);
+    d
+}
+
+const POOL: &[&str] = &["a", "b", "a::b", "a::bb", "a::b::a", "ab", "a::a", "b::a", "a::b::a::b", "::a"];
+const EX_TARGETS: &[&str] = &[
+    "a", "b", "a::b", "a::bb", "a::b::a", "a::b::a::b", "a::b::a::b::a", "ab", "a::a", "b::a", "", "a::", "::a", "a:::b",
+];
+
+/// every configuration with at most `k` loggers from the 10-name pool × 2 levels × additive × 2 attachments,
+/// declared longest name first (so a missing sort shows), probed on 14 targets × levels 1,3,5
+fn exhaustive(k: usize, emit: &mut dyn FnMut(String)) {
+    let probes: Vec<(String, u8)> =
+        EX_TARGETS.iter().flat_map(|t| [1u8, 3, 5].iter().map(move |l| (t.to_string(), *l))).collect();
+    let n = POOL.len();
+    let mut subsets: Vec<Vec<usize>> = vec![vec![]];
+    for size in 1..=k {
+        let mut idx: Vec<usize> = (0..size).collect();
+        loop {
+            subsets.push(idx.clone());
+            let mut i = size;
+            while i > 0 && idx[i - 1] == n - size + i - 1 {
+                i -= 1;
+            }
+            if i == 0 {
+                break;
+            }
+            idx[i - 1] += 1;
+            for j in i..size {
+                idx[j] = idx[j - 1] + 1;
+            }
+        }
+    }
+    for s in subsets {
+        let mut names: Vec<&str> = s.iter().map(|i| POOL[*i]).collect();
+        names.sort_by_key(|x| std::cmp::Reverse(x.len()));
+        let m = names.len();
+        for opts in 0..(8usize.pow(m as u32)) {
+            let loggers: Vec<LCfg> = names
+                .iter()
+                .enumerate()
+                .map(|(i, name)| {
+                    let o = (opts >> (3 * i)) & 7;
+                    LCfg {
+                        name: name.to_string(),
+                        level: if o & 1 == 0 { 1 } else { 4 },
+                        additive: o & 2 == 0,
+                        refs: vec![if o & 4 == 0 { "x".to_string() } else { "y".to_string() }],
+                    }
+                })
+                .collect();
+            let c = Cfg {
+                appenders: vec!["r".into(), "x".into(), "y".into()],
+                root_level: 3,
+                root_refs: vec!["r".into()],
+                loggers,
+            };
+            emit_case(&c, &probes, emit);
+        }
+    }
+}
+
+pub fn gen(rng: &mut Rng, n: usize, thorough: bool, emit: &mut dyn FnMut(String)) {
+    // exhaustive small-scope block
+    exhaustive(if thorough { 3 } else { 2 }, emit);
+    // random stream: each configuration twice, as declared and shuffled
+    for i in 0..n {
+        let (max_loggers, max_depth) = if thorough && i % 4 == 0 { (9, 6) } else { (6, 4) };
+        let c = rand_cfg(rng, max_loggers, max_depth);
+        let targets = targets_for(rng, &c, if thorough { 24 } else { 14 });
+        let mut probes: Vec<(String, u8)> = vec![];
+        for t in &targets {
+            for l in 1..=5u8 {
+                probes.push((t.clone(), l));
+            }
+        }
+        emit_case(&c, &probes, emit);
+        let d = shuffled(rng, &c);
+        emit_case(&d, &probes, emit);
+    }
+}
+
+// ------------------------------------------------------------------------------------------------
+// execution on the real code
+// ------------------------------------------------------------------------------------------------
+pub fn exec(fields: &[&str]) -> String {
+    if fields.len() != 5 {
+        return "bad-case".to_owned();
+    }
+    let cfg = match Cfg::decode(&fields[..4]) {
+        Some(c) => c,
+        None => return "bad-case".to_owned(),
+    };
+    let mut probes: Vec<(String, u8)> = vec![];
+    for p in dec_list(',', fields[4]) {
+        let q: Vec<&str> = p.split(';').collect();
+        if q.len() != 2 {
+            return "bad-case".to_owned();
+        }
+        match (dec_str(q[0]), q[1].parse::<u8>()) {
+            (Some(t), Ok(l)) if (1..=5).contains(&l) => probes.push((t, l)),
+            _ => return "bad-case".to_owned(),
+        }
+    }
+    let sink = Arc::new(Mutex::new(Vec::<String>::new()));
+    let config = match build_config(&cfg, &sink) {
+        Ok(c) => c,
+        Err(_) => return "INVALID".to_owned(),
+    };
+    let sink2 = sink.clone();
+    let r = guarded(std::panic::AssertUnwindSafe(move || {
+        let logger = log4rs::Logger::new(config);
+        let mut out: Vec<String> = vec![];
+        for (t, l) in &probes {
+            sink2.lock().unwrap().clear();
+            logger.log(&Record::builder().target(t).level(level_of(*l)).args(format_args!("x")).build());
+            out.push(render_names(&sink2.lock().unwrap()));
+        }
+        enc_list(",", &out)
+    }));
+    match r {
+        Ok(s) => s,
+        Err(_) => "PANIC".to_owned(),
+    }
+}
+
+/// child-process entry point (unused by C01)
 pub fn child(_args: &[String]) -> i32 {
     2
 }
